@@ -112,11 +112,14 @@ func (data *Data) Serialize(fr *FrameHeader) {
 			fr.Flags().Add(FlagEndStream))
 	}
 
+	fr.setPayload(data.b)
+
+	// The padding is the frame's, on the wire, and not the data's: added to
+	// data.b it would still be there, as data, the next time the frame is
+	// written or its data looked at.
 	if data.hasPadding {
 		fr.SetFlags(
 			fr.Flags().Add(FlagPadded))
-		data.b = http2utils.AddPadding(data.b)
+		fr.payload = http2utils.AddPadding(fr.payload)
 	}
-
-	fr.setPayload(data.b)
 }
